@@ -111,9 +111,27 @@ func capLimits(p *ParserDef, cfg Cfg) view.Opt {
 
 // CheckCapacity is the C13 oracle.
 func CheckCapacity(w *core.Worker, p *ParserDef, ample, small Cfg, buf []byte, cuts []int) (judged, overflow bool) {
+	return CheckCapacityH(w, p, ample, small, buf, cuts, nil, 0)
+}
+
+// CheckCapacityH is CheckCapacity on objects that share a history: both were
+// first used for the (possibly abandoned) input pre and then reset.
+func CheckCapacityH(w *core.Worker, p *ParserDef, ample, small Cfg, buf []byte, cuts []int, pre []byte, rk int) (judged, overflow bool) {
 	s := sc(w)
 	A := p.New(ample)
 	S := p.New(small)
+	if pre != nil {
+		pan, _, _ := core.Guard(func() {
+			A.Call(pre, 0)
+			S.Call(pre, 0)
+			doReset(A, rk, ample)
+			doReset(S, rk, small)
+		})
+		if pan {
+			w.Inc("history_panicked(left to C04/C12)")
+			return
+		}
+	}
 	// both runs follow the same cut schedule: only the capacity differs
 	na, ea, cuta, pana := drive(A, buf, 0, cuts)
 	ns, es, cuts2, pans := drive(S, buf, 0, cuts)
@@ -164,6 +182,9 @@ func CheckCapacity(w *core.Worker, p *ParserDef, ample, small Cfg, buf []byte, c
 			viewOf(&s.v2, S, len(buf), op, true)
 			d := (&Case{P: p, Cfg: small, Buf: buf}).detail()
 			d["cuts"] = append([]int(nil), cuts...)
+			if pre != nil {
+				d["both_objects_used_before_for"] = core.Esc(pre)
+			}
 			return core.V(fmt.Sprintf("%s: with capacity (hdr %d, contact %d, param %d) the capacity-independent part of the result differs from the ample-capacity run: %s (left ample, right small)",
 				p.Name, small.HdrCap, small.ContactCap, small.ParamCap, view.Diff(&s.v1, &s.v2)), buf, d)
 		})
@@ -180,7 +201,7 @@ func CheckCapacity(w *core.Worker, p *ParserDef, ample, small Cfg, buf []byte, c
 
 // RunC13 is the monitor for C13.
 func RunC13(r *core.Run) {
-	r.Rule = "case = (input, capacity vector (header, contact, URI-param capacity incl. 0 and none), cut schedule); the run is compared with an ample-capacity one-shot run: verdict, offset, all counts (N, HNo), type flags, GetHdr(t) for every t, From/To/Call-ID/CSeq/CLen/Expires values, expires summary, LastHVal, the stored elements [0,min(N,capacity)), GetContact(0) and GetContact(N-1), body/raw message; More()/VNo()/PNo()/HNo() must equal N>capacity / min(N,capacity); non-trivial = the input was accepted and compared; 'overflow' counts cases where N exceeded a capacity (scratch slot path executed)"
+	r.Rule = "case = (input, capacity vector (header, contact, URI-param capacity incl. 0 and none), cut schedule); the run is compared with an ample-capacity one-shot run: verdict, offset, all counts (N, HNo), type flags, GetHdr(t) for every t, From/To/Call-ID/CSeq/CLen/Expires values, expires summary, LastHVal, the stored elements [0,min(N,capacity)), GetContact(0) and GetContact(N-1), body/raw message; More()/VNo()/PNo()/HNo() must equal N>capacity / min(N,capacity); non-trivial = the input was accepted and compared; 'overflow' counts cases where N exceeded a capacity (scratch slot path executed); a third of the message cases run on objects that share a pre-history (other message abandoned, then Reset/Init); URI lists are also filled by several consecutive calls"
 	r.Assume = []string{"ample capacity = 64 headers / 64 contacts / 32 URI parameters, larger than any generated message"}
 	ample := Cfg{HdrCap: 64, ContactCap: 64, ParamCap: 32}
 	n := r.Pick(400000, 8000000)
@@ -227,7 +248,22 @@ func RunC13(r *core.Run) {
 			} else {
 				s.cuts = CutsRandom(s.cuts, rr, 0, len(in), rr.Range(1, 8))
 			}
-			j, o := CheckCapacity(w, p, a, small, in, s.cuts)
+			var pre []byte
+			if t >= 4 {
+				// both objects were used before: another message abandoned somewhere, then reset
+				om := gen.Msg(rr, gen.MsgOpts{MinHdrs: 2, MaxHdrs: 8, MultiNA: 70, Kinds: []int{gen.HContact, gen.HContact, gen.HPAI, gen.HFrom, gen.HVia}}).Raw
+				if !p.IsMsg {
+					for k := 0; k < len(om); k++ {
+						if om[k] == '\n' {
+							om = om[k+1:]
+							break
+						}
+					}
+				}
+				pre = om[:rr.Intn(len(om)+1)]
+				w.Inc("cases_with_history")
+			}
+			j, o := CheckCapacityH(w, p, a, small, in, s.cuts, pre, rr.Intn(rkCount))
 			anyJ = anyJ || j
 			ovf = ovf || o
 		}
@@ -296,6 +332,82 @@ func RunC13(r *core.Run) {
 		if w.WantSample("uri-lists") {
 			w.Sample("uri-lists", map[string]any{"parser": p.Name, "input": core.Esc(in), "flags": uint(flags), "items": len(pl.Items)})
 		}
+	})
+	// lists filled by SEVERAL calls (the wrappers 'add' to the list): k comma/'?' terminated
+	// lists in one buffer, each parsed by its own call into the same list object
+	r.Stage("uri-lists-filled-by-several-calls", r.Pick(80000, 2500000), func(w *core.Worker, idx int64) {
+		rr := core.NewRand(r.Seed, 0xC13, 4, uint64(idx))
+		hdrs := rr.Bool()
+		flags := sipsp.POptTokCommaTermF
+		eff := flags | sipsp.POptParamSemiSepF
+		if hdrs {
+			eff = flags | sipsp.POptParamAmpSepF | sipsp.POptTokURIHdrF
+		}
+		k := rr.Range(2, 4)
+		var buf []byte
+		var starts []int
+		total := 0
+		for i := 0; i < k; i++ {
+			o := gen.PLOpts{Flags: eff, Term: gen.TermChar, MaxItems: 4}
+			if i == k-1 {
+				o.Term = gen.TermEOH
+			}
+			pl := gen.ParamList(rr, o)
+			starts = append(starts, len(buf))
+			if o.Term == gen.TermChar {
+				buf = append(buf, pl.Raw[:pl.TermOffs+1]...)
+			} else {
+				buf = append(buf, pl.Raw...)
+			}
+			total += len(pl.Items)
+		}
+		run := func(pc int) (res []int64, pan string) {
+			var ob Obj
+			if hdrs {
+				x := &uriHdrsObj{flags: flags}
+				x.l.Init(make([]sipsp.URIHdr, pc))
+				ob = x
+			} else {
+				x := &uriParamsObj{flags: flags}
+				x.l.Init(make([]sipsp.URIParam, pc))
+				ob = x
+			}
+			for i := 0; i < k; i++ {
+				n, e, p, _ := safeCall(ob, buf, starts[i])
+				if p != "" {
+					return nil, p
+				}
+				res = append(res, int64(n), int64(e))
+			}
+			var v view.Vec
+			v.Reset(len(buf))
+			ob.View(&v, view.MsgOpt{Opt: view.Opt{CapIndep: true, ParamLimit: 0}})
+			return append(res, v.N...), ""
+		}
+		ref, pan := run(total + 2)
+		w.Eval(1)
+		if pan != "" {
+			return
+		}
+		for pc := 0; pc <= total; pc++ {
+			got, pan := run(pc)
+			w.Eval(1)
+			same := pan == "" && len(got) == len(ref)
+			for i := 0; same && i < len(got); i++ {
+				same = got[i] == ref[i]
+			}
+			if !same {
+				bc := append([]byte(nil), buf...)
+				w.Fail("several-calls-depend-on-capacity", func() *core.Violation {
+					return core.V(fmt.Sprintf("%d lists parsed by %d consecutive calls into one list object: with capacity %d the (offset, verdict) sequence / N / Types are %v (panic %q), with ample capacity %v",
+						k, k, pc, got, pan, ref), bc, map[string]any{"uri_headers": hdrs, "call_offsets": starts, "total_items": total})
+				})
+				return
+			}
+		}
+		w.Nontrivial(core.HashBytes(buf))
+		w.Inc("nontrivial_cases")
+		w.Inc("overflow_path_cases")
 	})
 	r.Require("C13 accepted inputs compared", r.Counter("nontrivial_cases"), 5000)
 	r.Require("C13 overflow-path cases", r.Counter("overflow_path_cases"), 2000)
